@@ -18,7 +18,7 @@ func checkTableLookups(c *Ctx, rule string, names ...string) {
 	for _, nm := range names {
 		var f *ssa.Function
 		for _, g := range p.Funcs {
-			if g.Name() == nm && g.Signature.Recv() != nil && namedOf(g.Signature.Recv().Type()) != nil && namedOf(g.Signature.Recv().Type()).Obj().Name() == "Table" && g.Parent() == nil {
+			if fnName(g) == nm && g.Signature.Recv() != nil && namedOf(g.Signature.Recv().Type()) != nil && namedOf(g.Signature.Recv().Type()).Obj().Name() == "Table" && g.Parent() == nil {
 				f = g
 			}
 		}
